@@ -43,6 +43,16 @@ CLAIMED = {
               '(true positions and visible-record extents are derived by the writer specification).'),
         note='Same trusted base as C01; locality is judged on reads observed through a tracing BytesIO.',
         technique='TLA+ spec + TLC model checking; TLC trace validation of fetch histories with observed I/O'),
+    'C05': dict(
+        category='model_checking', design='3/C05',
+        text=('TLC checks that the PhysRecRead design (LisPhys.tla: header/trailer/within-record loops, mustReadHead, '
+              'start-of-record bookkeeping) refines the abstract record cursor (LisPhysAbs.tla) under every operation '
+              'sequence over a set of layouts covering every split shape, and that the greedy writer split is a valid '
+              'split; operation histories on one real FileRead per generated file (any valid split and trailer mix, TIF '
+              'none/normal/reversed), the real FileWrite output parsed by an independent LIS-79 parser (bits, trailers, '
+              'TIF chain, returned positions, payload), read-back and strip_tif are validated by TLC against LisPhysTrace.'),
+        note='Trusts TLC, the independent renderer/parser in harness/gen/lis.py and the bytes->range projection; n >= 1 reads.',
+        technique='TLA+ spec + TLC model checking over all operation sequences; TLC trace validation of reader/writer histories'),
 }
 
 NOT_YET = 'check not built yet in this session; planned per DESIGN.md section 3'
